@@ -4,6 +4,7 @@ import (
 	"encoding/json"
 	"fmt"
 	"math/bits"
+	"runtime"
 	"sort"
 
 	"github.com/openacid/low/bitmap"
@@ -53,6 +54,9 @@ func (Builder) Generate(seed uint64, tier string) engine.Plan {
 	r := engine.NewPRNG(seed)
 	p := &BuilderPlan{ProbeSeed: r.Uint64()}
 	p.Prealloc = int32(r.PickInt64(0, 0, 1, 64, 1000))
+	if r.Chance(1, 8) {
+		p.Prealloc = int32(r.PickInt64(1<<15, 1<<15+1, 1<<16, 1<<17)) // 512 words and more
+	}
 	nops := 1 + r.Intn(8)
 	if r.Chance(1, 6) {
 		nops = 1 + r.Intn(40)
@@ -415,6 +419,32 @@ func (Builder) Execute(pl engine.Plan, c *engine.RunCtx) *engine.Failure {
 		if fail != nil {
 			return fail
 		}
+	}
+	if p.Prealloc >= 1<<15 {
+		// The usual way a Builder is used: keep b.Words, drop the Builder. What it
+		// built must stay what it was when the Builder is gone (collected, its
+		// finalizers run) and ANOTHER big Builder has been created and filled.
+		kept := b.Words
+		keptBits := sortedBits(model)
+		b = nil
+		forceGC()
+		st.Inc("fault.fired.gc.forced_collection_with_finalizers")
+		c.FaultsFired++
+		step++
+		var b2 *bitmap.Builder
+		if !guard(func() string { return "NewBuilder + Extend after the first Builder was dropped" }, func() {
+			b2 = bitmap.NewBuilder(p.Prealloc)
+			b2.Extend([]int32{1, 62, 63, 64, 200, p.Prealloc - 1}, p.Prealloc)
+		}) {
+			return fail
+		}
+		if got := bitsOf(kept); !int32sEqual(got, keptBits) {
+			return engine.Failf("C12.retain", step, "the words a Builder produced (kept by the caller) changed after the Builder was dropped, a collection ran and another Builder of %d bits was filled: bits now %v, were %v", p.Prealloc, clip32(got), clip32(keptBits))
+		}
+		if got := bitsOf(b2.Words); !int32sEqual(got, []int32{1, 62, 63, 64, 200, p.Prealloc - 1}) {
+			return engine.Failf("C12.bits", step, "a Builder created after another was dropped has bits %v, want [1 62 63 64 200 %d]", clip32(got), p.Prealloc-1)
+		}
+		runtime.KeepAlive(b2)
 	}
 	return nil
 }
